@@ -129,7 +129,10 @@ class State:
 
     def read(self, name, obj_r):
         self.reads.add(name)
-        return z3.Select(self.field(name), obj_r)
+        t = z3.Select(self.field(name), obj_r)
+        if name in ("$elems", "$dkeys", "$dhas", "$dmap"):
+            t = z3.simplify(t)      # resolve select-over-store syntactically: keeps E-matching patterns applicable
+        return t
 
     def write(self, name, obj_r, val):
         self.heap[name] = z3.Store(self.field(name), obj_r, val)
